@@ -480,6 +480,8 @@ func unpackEngine(c *Ctx) {
 		"unpack tar " + lossless + " gnu none " + RawHdr{Name: "MYLABEL", Typeflag: 'V'}.tok() + ";" + RawHdr{Name: "./", Typeflag: '5', Mode: 0755}.tok() + ";" + RawHdr{Name: "./f", Typeflag: '0', Mode: 0644, Content: []byte("x")}.tok(),
 		"unpack tar " + lossless + " gnu none " + RawHdr{Name: "./", Typeflag: 'D', Mode: 0755, Content: []byte("Yf\x00\x00")}.tok() + ";" + RawHdr{Name: "./f", Typeflag: '0', Mode: 0644, Content: []byte("x")}.tok() + ";" + RawHdr{Name: "./d/", Typeflag: 'D', Mode: 0750, Content: []byte("\x00")}.tok(),
 		"unpack tar " + lossless + " gnu none " + RawHdr{Name: "./", Typeflag: '5', Mode: 0755}.tok() + ";" + RawHdr{Name: "./sp", Typeflag: 'S', Mode: 0644}.tok(),
+		// a record that is no entry may be called anything: an absolute volume label (GNU tar's global header is /tmp/GlobalHead.N)
+		"unpack tar " + lossless + " gnu none " + RawHdr{Name: "/MYLABEL", Typeflag: 'V'}.tok() + ";" + RawHdr{Name: "./", Typeflag: '5', Mode: 0755}.tok() + ";" + RawHdr{Name: "./f", Typeflag: '0', Mode: 0644, Content: []byte("x")}.tok(),
 	}
 	for _, op := range corpus {
 		c.Emit2(op, unpackExec)
